@@ -300,6 +300,19 @@ pub fn collect_modules(entry_path: &str) -> CliResult<Vec<ParsedModule>> {
                         }
                     }
 
+                    // A directory can act as a module through its `mod.incn` (or legacy `mod.incan`) file, in the same
+                    // order of preference as the language server's resolver.
+                    if found_path.is_none() {
+                        let module_dir = dep_path.with_extension("");
+                        for mod_file in ["mod.incn", "mod.incan"] {
+                            let candidate = module_dir.join(mod_file);
+                            if candidate.exists() {
+                                found_path = Some(candidate);
+                                break;
+                            }
+                        }
+                    }
+
                     if let Some(path) = found_path {
                         let dep_path_str = path.to_string_lossy().to_string();
                         let module_name = module_segments.join("_");
